@@ -625,6 +625,23 @@ class TagsStream(runner.Stream):
             len([x for x in split_top(req.split(" ")[2], ",") if x != "..."]) >= 2
 
 
+class TagsCorpus(TagsStream):
+    """the TAG constant and canonical position of a component of EVERY builtin kind, untagged next to an explicitly
+    tagged sibling (automatic tagging off) — included by C08: the constants of the macro expansion carry the tags"""
+    name = "tags-corpus"
+
+    def gen(self, rng, tier):
+        reqs = []
+        for k in sorted(UNIVERSAL):
+            if k in ("seq", "set"):
+                continue
+            for pres in ("", "?", "!") if k in ("bool", "int") else ("", "?"):
+                reqs.append(f"tags set a:C0:bool,b:-:{k}{pres}")
+                reqs.append(f"tags seq a:P1:null,b:-:{k}{pres}")
+                reqs.append(f"tags set z:-:{k}{pres},a:A1:int,m:-:ia5")
+        return reqs
+
+
 class Spec(runner.Spec):
     prop = "C16"
     streams = [TagsStream()]
